@@ -162,7 +162,10 @@ class C16(FloatSpec):
             '4096 x random bin, amplitude 1e-3..1e3, phase in (-3.1, 3.1), fs, window in {None, hann, hamming, flattop, '
             'blackman, nuttall, blackmanharris}, averages 1..8 with 0..avg-1 trailing samples; seeded Gaussian signals with the same grids and '
             'batch shapes; level helpers on random values and arrays. A case is non-trivial when the signal is not '
-            'constant; distinct = distinct case hash.')
+            'constant; distinct = distinct case hash. Hardening: samples held as float32 / int16 / int32 / int64, read-only '
+            'or strided; batch shapes (incl. size-1 axes) for csd, psd (averaged, trailing samples), tone_conv (scalar and '
+            'array frequency), rms, rms_rfft; positional spelling; arguments compared with a copy after every call; '
+            'level helpers on integers, arrays, lists, Series; signals of 2^16..2^17 (thorough 2^20) samples.')
     exhaustive_note = {
         'quick': 'tones, no window: every length 8..40 x every bin 0..n/2',
         'thorough': 'tones, no window: every length 8..96 x every bin 0..n/2; hann: every length 24..64 x every bin',
